@@ -3,13 +3,15 @@
 # Every property crate is built on its own (`-p`), exactly as `./check` does, so
 # that cargo's feature unification matches and the first check does not rebuild
 # (the C20 crate enables the py-bindings features of the repo crates).
-set -e
 cd "$(dirname "$0")"
 export CARGO_NET_OFFLINE=true
 cd harness
+failed=""
 for d in props/*/; do
   c=$(basename "$d")
   echo "[setup] building $c"
-  cargo build --release -p "$c"
+  if ! cargo build --release -p "$c" 2>&1 | tail -3; then failed="$failed $c"; fi
 done
+[ -n "$failed" ] && echo "[setup] WARNING: failed to build:$failed (their checks will report exit 2)"
 echo "setup done"
+exit 0
